@@ -1791,6 +1791,14 @@ class Parallel(Logger):
             if len(self._jobs) > 0:
                 return True
 
+        # An error (of the input iterable, registered by a completion callback
+        # while it was dispatching) may have been registered after the test at
+        # the top of this function, and a later callback may then have cleared
+        # `_iterating`: `_aborting` is always set before that happens, so
+        # reading it last cannot miss it.
+        if self._aborting:
+            return True
+
         return False
 
     def _retrieve(self):
